@@ -51,6 +51,14 @@ struct Cond : LedgeredT<5>
 	explicit Cond(int cb) : LedgeredT<5>(kAuxBase + cb) {}
 	bool operator() (int arg) const { touch(); return deliverCondition(id - kAuxBase, arg, true); }
 };
+// callable both with the trigger's argument and with none: the statement says "with the trigger's arguments if it
+// accepts them", so the one-argument overload is the one that must run
+struct CondBoth : LedgeredT<5>
+{
+	explicit CondBoth(int cb) : LedgeredT<5>(kAuxBase + cb) {}
+	bool operator() (int arg) const { touch(); return deliverCondition(id - kAuxBase, arg, true); }
+	bool operator() () const { touch(); return deliverCondition(id - kAuxBase, 0, false); }
+};
 struct CondNoArg : LedgeredT<5>
 {
 	explicit CondNoArg(int cb) : LedgeredT<5>(kAuxBase + cb) {}
@@ -65,7 +73,7 @@ struct ITarget
 	virtual bool canQueue() const = 0;
 	virtual void add(int obj, int key, int how, int before, int cb) = 0;
 	virtual void addCounter(int obj, int key, int how, int before, int cb, int n) = 0;
-	virtual void addCond(int obj, int key, int how, int before, int cb, bool withArg) = 0;
+	virtual void addCond(int obj, int key, int how, int before, int cb, int form) = 0; // form: 0 no argument, 1 argument, 2 both
 	virtual bool remove(int obj, int key, int h) = 0;
 	virtual void trigger(int obj, int key, int arg, bool queued) = 0;
 	virtual void enumerate(int obj, int key, std::vector<int> & out) = 0;
@@ -171,8 +179,9 @@ struct Target : ITarget
 	void addCounter(int o, int k, int how, int b, int cb, int n) override {
 		handles.push_back(A::cadd(eventpp::counterRemover(objs[o]), k, how, H(b), RL(cb), n));
 	}
-	void addCond(int o, int k, int how, int b, int cb, bool withArg) override {
-		if(withArg) handles.push_back(A::dadd(eventpp::conditionalRemover(objs[o]), k, how, H(b), RL(cb), Cond(cb)));
+	void addCond(int o, int k, int how, int b, int cb, int form) override {
+		if(form == 2) handles.push_back(A::dadd(eventpp::conditionalRemover(objs[o]), k, how, H(b), RL(cb), CondBoth(cb)));
+		else if(form == 1) handles.push_back(A::dadd(eventpp::conditionalRemover(objs[o]), k, how, H(b), RL(cb), Cond(cb)));
 		else handles.push_back(A::dadd(eventpp::conditionalRemover(objs[o]), k, how, H(b), RL(cb), CondNoArg(cb)));
 	}
 	bool remove(int o, int k, int h) override { return A::remove(objs[o], k, H(h)); }
@@ -263,6 +272,7 @@ struct Interp
 	std::ostringstream log;
 	bool c16 = false;
 	int pendingCond = -1;
+	bool condBothForms = false;
 
 	bool moveAssignBothOwn = false, bothGoneAfter = false, nontrivCounter = false, reentrant = false, condTrueNested = false, otherPresent = false;
 	std::set<std::pair<int, int> > maPairs;
@@ -416,7 +426,8 @@ struct Interp
 			}
 			else {
 				nodes[node].kind = N_COND; nodes[node].condBits = op.a >> 2; nodes[node].condWithArg = (op.a & 2) != 0;
-				lib->addCond(obj, key, how, before, nodes[node].cb, nodes[node].condWithArg);
+				lib->addCond(obj, key, how, before, nodes[node].cb, nodes[node].condWithArg ? (((op.a >> 7) & 1) ? 2 : 1) : 0);
+				if(nodes[node].condWithArg && ((op.a >> 7) & 1)) condBothForms = true;
 				log << "(n" << node << " cond " << nodes[node].condBits << ")";
 			}
 			break;
@@ -783,6 +794,7 @@ Verdict runOnce(const Program & p, const std::string & prop, FaultPlan * plan)
 		cls(in.nontrivCounter, "counter_le0_or_ge2");
 		cls(in.reentrant, "reentrant_trigger");
 		cls(in.condTrueNested, "condition_true_on_nested_trigger");
+		cls(in.condBothForms, "condition_callable_with_and_without_arguments");
 		cls(in.otherPresent, "other_listeners_present");
 		if(prop == "C15") v.nontrivial = in.moveAssignBothOwn;
 		else v.nontrivial = ((in.nontrivCounter && in.reentrant) || in.condTrueNested) && in.otherPresent;
